@@ -1098,7 +1098,7 @@ theorem item_notFreeOrFresh {st : State} (h : SInv st) {c : Var} {it : Item} (hi
   rintro (⟨it', f', hfree, e⟩ | hfresh)
   · obtain ⟨rfl, _⟩ := loc_inj e
     obtain rfl := h.slot_owner (List.mem_append_left _ hi) (List.mem_append_right _ hfree)
-    exact List.disjoint_of_nodup_append (h.slots_nodup c) hi hfree
+    exact (List.nodup_append.mp (h.slots_nodup c)).2.2 it hi it hfree rfl
   · exact item_not_fresh h hi f hfresh
 
 theorem item_notArrSet {st : State} (h : SInv st) {c : Var} {it : Item} (hi : it ∈ (st.nodes c).items)
